@@ -246,33 +246,46 @@ def explore(
     check: Callable[[Sched], None],
     bound: int,
     max_schedules: Optional[int] = None,
+    part: Tuple[int, int] = (0, 1),
 ) -> ExploreStats:
-    """`make(prefix)` builds a fresh system + scheduler and runs it to completion."""
+    """`make(prefix)` builds a fresh system + scheduler and runs it to completion.
+
+    part=(k, n): the subtrees below the first deviation from the default schedule are numbered in enumeration
+    order and only those with number % n == k are explored (the default schedule itself belongs to part 0), so n
+    calls with k = 0..n-1 cover the space exactly once and can run in different processes."""
     st = ExploreStats()
     traces = set()
+    k, n = part
+    counter = [0]
 
-    def rec(prefix: List[int], cost: int) -> None:
+    def rec(prefix: List[int], cost: int, depth: int) -> None:
         if max_schedules is not None and st.schedules >= max_schedules:
             return
         x = make(prefix)
         if x.diverged or x.choices[: len(prefix)] != list(prefix):
             raise ReplayDivergence(f"prefix {prefix} not reproduced: {x.diverged or x.choices}")
-        st.schedules += 1
-        st.points += x.npoints
-        st.max_choice_points = max(st.max_choice_points, len(x.choices))
-        st.by_cost[cost] = st.by_cost.get(cost, 0) + 1
-        st.deadlocks += 1 if x.deadlock else 0
-        traces.add(hash(tuple(i for i, _ in x.trace)))
-        check(x)
+        if depth > 0 or k == 0:
+            st.schedules += 1
+            st.points += x.npoints
+            st.max_choice_points = max(st.max_choice_points, len(x.choices))
+            st.by_cost[cost] = st.by_cost.get(cost, 0) + 1
+            st.deadlocks += 1 if x.deadlock else 0
+            traces.add(hash(tuple(i for i, _ in x.trace)))
+            check(x)
         for i in range(len(prefix), len(x.choices)):
             n_en, running_enabled = x.points[i]
             c2 = cost + (1 if running_enabled else 0)
             if c2 > bound:
                 continue
             for alt in range(1, n_en):
-                rec(x.choices[:i] + [alt], c2)
+                if depth == 0:
+                    q = counter[0]
+                    counter[0] += 1
+                    if q % n != k:
+                        continue
+                rec(x.choices[:i] + [alt], c2, depth + 1)
 
-    rec([], 0)
+    rec([], 0, 0)
     st.distinct_traces = len(traces)
     return st
 
